@@ -44,7 +44,9 @@ pub fn install_silent_hook() {
                 // context): this is the only chance to say why; the supervisor reads it
                 eprintln!("VP-ABORT non-unwinding panic: {} at {}:{}", message, file, line);
             }
-            LAST.with(|c| *c.borrow_mut() = Some(PanicInfo { message, file, line }));
+            // try_with: a panic raised while the thread's locals are being torn down must not make
+            // the hook itself panic
+            let _ = LAST.try_with(|c| *c.borrow_mut() = Some(PanicInfo { message, file, line }));
         }));
     });
 }
@@ -56,7 +58,7 @@ pub enum Ended<T> {
 }
 
 pub fn catch<T>(f: impl FnOnce() -> T) -> Ended<T> {
-    LAST.with(|c| *c.borrow_mut() = None);
+    let _ = LAST.try_with(|c| *c.borrow_mut() = None);
     super::alloc::enter_codec();
     let r = catch_unwind(AssertUnwindSafe(f));
     super::alloc::leave_codec();
@@ -66,7 +68,17 @@ pub fn catch<T>(f: impl FnOnce() -> T) -> Ended<T> {
             if payload.downcast_ref::<StepBudgetExceeded>().is_some() {
                 return Ended::StepBudget;
             }
-            let info = LAST.with(|c| c.borrow_mut().take()).unwrap_or(PanicInfo { message: "<unknown>".into(), file: "?".into(), line: 0 });
+            let from_payload = || {
+                let message = if let Some(s) = payload.downcast_ref::<&str>() {
+                    s.to_string()
+                } else if let Some(s) = payload.downcast_ref::<String>() {
+                    s.clone()
+                } else {
+                    "<unknown>".to_string()
+                };
+                PanicInfo { message, file: "?".into(), line: 0 }
+            };
+            let info = LAST.try_with(|c| c.borrow_mut().take()).ok().flatten().unwrap_or_else(from_payload);
             Ended::Panicked(info)
         }
     }
